@@ -164,7 +164,12 @@ impl<T> Array<T> {
         let data = data.into();
         let shape = shape.into();
 
-        if data.len() == shape.elements() {
+        // A shape whose number of elements overflows cannot match any data
+        let elements = shape
+            .iter()
+            .try_fold(1usize, |acc, &v| acc.checked_mul(v));
+
+        if elements == Some(data.len()) {
             Ok(Array::new_unchecked(data, shape))
         } else {
             Err(ShapeError {
